@@ -20,6 +20,7 @@ import Cog.Closed.UnspecDup
 import Cog.Closed.Seq
 import Cog.Closed.FilterProofs
 import Cog.Closed.Chains
+import Cog.Closed.Builders
 namespace Cog.Closed
 open Cog.IR Cog.Xform
 
@@ -371,5 +372,54 @@ theorem C05_chain_counterexample_java : ¬ C05_chain_full Cog.Gen.Chains.javaCha
   intro hfull
   have := hfull W.javaAlias _ (by decide) (by decide) rfl
   revert this; decide
+
+/-! ## builder targets (`BuilderGenerator.FromAST`, model of C16) -/
+
+open Cog.Builder in
+/-- on a Closed schema set every builder's target object exists, and every reference / constant
+    reference inside the types a builder exposes (option arguments, assignment paths and values,
+    constructor constants) resolves -/
+theorem C05_builders_closed (S : Schemas) (bs : Builders) (hc : Closed S) (hup : (S.map (·.pkg)).Nodup)
+    (h : fromAST S = .ok bs) :
+    ∀ b ∈ bs, existsObj S (b.for_.selfPkg, b.for_.selfName) = true ∧
+      ∀ t ∈ builderTypes b, ∀ u ∈ Ty.uses b.pkg t, (u.kind = .ref ∨ u.kind = .cref) → resolves S u = true :=
+  builders_closed S bs hc hup h
+
+open Cog.Builder in
+/-- FULL statement: EVERY use inside the exposed types resolves, discriminator-mapping targets
+    (bare names, looked up in the builder's package) included.  False. -/
+def C05_builders_full : Prop :=
+  ∀ (S : Schemas) (bs : Builders), Closed S → (S.map (·.pkg)).Nodup → fromAST S = .ok bs →
+    ∀ b ∈ bs, ∀ t ∈ builderTypes b, ∀ u ∈ Ty.uses b.pkg t, resolves S u = true
+
+open Cog.Builder in
+def buildersOK (S : Schemas) (bs : Builders) : Bool :=
+  bs.all fun b => (builderTypes b).all fun t => (Ty.uses b.pkg t).all fun u => resolves S u
+
+open Cog.Builder in
+def buildersRefute (S : Schemas) : Bool :=
+  closed S && decide (S.map (·.pkg)).Nodup && match fromAST S with
+    | .ok bs => !buildersOK S bs
+    | _ => false
+
+open Cog.Builder in
+theorem not_builders_full (S : Schemas) (h : buildersRefute S = true) : ¬ C05_builders_full := by
+  intro hfull
+  simp only [buildersRefute, Bool.and_eq_true, decide_eq_true_eq] at h
+  obtain ⟨⟨h1, h2⟩, h3⟩ := h
+  cases hr : fromAST S with
+  | ok bs =>
+    have hall := hfull S bs h1 h2 hr
+    have : buildersOK S bs = true := by
+      simp only [buildersOK, List.all_eq_true]
+      exact fun b hb t ht u hu => hall b hb t ht u hu
+    simp [hr, this] at h3
+  | err e => simp [hr] at h3
+  | panic e => simp [hr] at h3
+
+/-- a builder for an object that aliases a struct of ANOTHER package exposes that struct's field
+    types, bare mapping targets included -/
+theorem C05_builders_counterexample : ¬ C05_builders_full :=
+  not_builders_full W.builderAlias (by decide)
 
 end Cog.Closed
